@@ -366,3 +366,11 @@ func verifParseSent(c *verifPacketConn, i int) *stun.Message {
 	}
 	return m
 }
+
+func verifMustAddrPort(s string) netip.AddrPort {
+	ap, err := netip.ParseAddrPort(s)
+	if err != nil {
+		panic("verif: " + err.Error())
+	}
+	return ap
+}
